@@ -68,7 +68,9 @@ theorem fifo (c : Cfg) (s : S) (h : Reachable c s) :
   TQ.fifo c s h
 
 /-- **one worker: one at a time, in submission order**: at most one task runs, the start order is an initial segment of
-    the acceptance order, and the tasks complete in that same order (start order = finish order + the running task) -/
+    the acceptance order, and the tasks complete in that same order (start order = finish order + the running task).
+    Ids are given in the order in which the sends into `in` complete, so a task whose `Submit` returned before
+    another's began has the smaller id and, by this theorem, runs (and ends) first. -/
 theorem fifo_single_worker (c : Cfg) (hw : c.workers = 1) (s : S) (h : Reachable c s) :
     s.running.length ≤ 1 ∧ s.started <+: List.range s.nextId ∧ s.started = s.finished.reverse ++ s.running := by
   refine ⟨?_, started_prefix c s h, serial c hw s h⟩
